@@ -274,7 +274,7 @@ Definition xonsh_quote (v : str) : str :=
 Definition xonsh_format (m : meta) (values : list raw) : str :=
   json_array (map (fun v =>
     let q := xonsh_quote (value v) in
-    let q' := if sm_matches (nospace m) q then q else q ++ B [32] in
+    let q' := if sm_matches (nospace m) (replace1 xonsh_sanitizer (value v)) then q else q ++ B [32] in
     json_object [Some (member (B [86;97;108;117;101]) (json_string q'));
                  Some (member (B [68;105;115;112;108;97;121]) (json_string (display v)));
                  Some (member (B [68;101;115;99;114;105;112;116;105;111;110]) (json_string (trimmed_description (description v))));
